@@ -523,6 +523,11 @@ def edge_facts(b, e):
     else:
         facts = list(b.facts_at(e["pos"]))
     from ..bounds import _range_of_item, norm
+    try:
+        if b.kind != "Closure":
+            facts += effects.item_facts(effects.Effects(b.prog) if not hasattr(b.prog, "_c07_eff") else b.prog._c07_eff, b, e.get("ops") or ())
+    except Exception:
+        pass
     seen = set()
     for o in e.get("ops") or ():
         for x in subterms(deep_strip(o)):
@@ -659,6 +664,16 @@ def loops_of(prog, b):
                                 if other and not any(s2[0] == 'param' and b.local_ty(s2[1]).k == 'prim' for s2 in subterms(other[0])):
                                     exits.append(tstr(other[0]))
                     clamped = any(is_call(deep_strip(x), "cmp::min") for x in bounds)
+                    # `for n in (a..=b).take_while(|&n| n < self.size)`: the stage ends the walk when the item reaches a bound that is
+                    # not the caller's: the same early exit, stated by the chain instead of a `break`
+                    try:
+                        for r in effects.item_facts(getattr(prog, "_c07_eff", None) or effects.Effects(prog), b, [var]):
+                            if r[0] == 'cmp' and r[1] in ('Lt', 'Le') and deep_strip(r[2]) == deep_strip(var):
+                                other = deep_strip(r[3])
+                                if not any(s2[0] == 'param' and b.local_ty(s2[1]).k == 'prim' for s2 in subterms(other)):
+                                    exits.append(tstr(other))
+                    except Exception:
+                        pass
                     if exits or clamped:
                         detail += f"; bounds are caller-supplied but the loop leaves when the variable reaches `{exits[0] if exits else 'the clamped end'}`"
                     else:
@@ -790,6 +805,8 @@ def _iter_source(t):
         c = canon(t[1])
         if c.endswith("into_iter") and re.search(r"IntoIterator for &('\w+ )?(mut )?(\[|(std::vec::|alloc::vec::)?Vec<)|^<&('\w+ )?(mut )?\[|^<&('\w+ )?(mut )?(std::vec::|alloc::vec::)?Vec<|^<\[", str(t[1])):
             return "into_iter over a slice / Vec / array reference"       # `for x in &buf[..n]`: as many rounds as the slice has elements
+        if c.endswith("Iterator::take_while") or c.endswith("Iterator::filter") or c.endswith("Iterator::skip") or c.endswith("Iterator::skip_while"):
+            return _iter_source(t[2][0])        # stages that only drop items: as finite as their source
         if c.endswith("IntoIterator::into_iter") or c.endswith("Iterator::take") or c.endswith("Iterator::enumerate") or c.endswith("Iterator::rev") or c.endswith("Iterator::map"):
             inner = _iter_source(t[2][0])
             if c.endswith("Iterator::take"):
@@ -817,6 +834,7 @@ def run(ctx, progs):
     for cfg, prog in progs.items():
         ctx.config = cfg
         eff = effects.Effects(prog)
+        prog._c07_eff = eff
         contract_kinds(prog)
         from ..failsum import FailSummaries
         prog._c07_failsum = FailSummaries(prog, eff)
